@@ -159,7 +159,7 @@ def classify_error(msg):
     if "already has basic type" in m or "Duplicate" in m or "already declared" in m:
         return "duplicate"
     if "used before it is defined" in m or "used before it is typed" in m or "VARIABLE attribute conflicts with PARAMETER" in m \
-            or "Missing kind-parameter" in m:
+            or "Missing kind-parameter" in m or "Cannot IMPORT" in m:
         return "misordered"
     m = re.sub(r"'[^']*'|‘[^’]*’", "'_'", m)
     m = re.sub(r"\(\d+\)", "(N)", m)
@@ -188,7 +188,7 @@ def gfortran(scratch, name, text, incdirs=()):
 
 def compile_units(scratch, name, prelude, units):
     """Compile many independent program units in one gfortran run.  units = list of texts; returns a
-    list (one per unit) of error message lists.  prelude is compiled first (shared modules)."""
+    list (one per unit) of lists of (line within the unit, error message).  prelude is compiled first (shared modules)."""
     text = prelude
     spans = []
     line = text.count("\n") + 1
@@ -203,7 +203,7 @@ def compile_units(scratch, name, prelude, units):
     for ln, msg in errs:
         for k, (a, b) in enumerate(spans):
             if ln is not None and a <= ln <= b:
-                res[k].append(msg)
+                res[k].append((ln - a + 1, msg))      # line number relative to the unit
                 break
         else:
             other.append((ln, msg))
